@@ -325,9 +325,14 @@ func solveOne(outDir, bg string, o *Obligation, tier string, budget, seed int) *
 		plan = []attempt{{solvers[0], 2}, {solvers[1], 2}}
 	}
 	if h := solverHints[o.Name]; h != "" && o.Class != "cover" {
+		// the solver that decided this obligation when the baseline was taken goes first, with a longer first attempt
 		for _, sp := range solvers {
 			if sp.name == h {
-				plan = append([]attempt{{sp, short}}, plan...)
+				first := 3 * short
+				if first > budget {
+					first = budget
+				}
+				plan = append([]attempt{{sp, first}}, plan...)
 			}
 		}
 	}
